@@ -86,3 +86,13 @@ pub fn head_of(msg: &str) -> &str {
 	let (head, _rest) = msg.split_at(1024);
 	head
 }
+
+
+/// C13.R9 control: a keep-or-overwrite entry operation on a name -> callback table.
+pub enum MethodCallbackFixture {
+    Sync(u8),
+}
+
+pub fn or_insert_control(table: &mut std::collections::HashMap<&'static str, MethodCallbackFixture>, name: &'static str) {
+    table.entry(name).or_insert(MethodCallbackFixture::Sync(0));
+}
